@@ -157,11 +157,17 @@ func main() {
 		err error
 	}
 	ch := make(chan wres, *workers)
+	var knownKeys []string
+	for _, k := range loadKnown() {
+		if k.Property == *prop && k.Status == "finding" {
+			knownKeys = append(knownKeys, k.Key)
+		}
+	}
 	for w := 0; w < *workers; w++ {
 		go func() {
 			cmd := exec.Command(bin, "-test.run", "^TestWorker$", "-test.timeout", "0")
 			cmd.Env = append(os.Environ(), "VPROP="+*prop, "VTIER="+*tier, "VOUT="+outDir, "VONLY="+*only,
-				fmt.Sprintf("VDEADLINE=%d", deadline.Unix()), "GOMAXPROCS=1", fmt.Sprintf("VERIF_SEED=%d", seed))
+				fmt.Sprintf("VDEADLINE=%d", deadline.Unix()), "GOMAXPROCS=1", fmt.Sprintf("VERIF_SEED=%d", seed), "VKNOWN="+strings.Join(knownKeys, ";;"))
 			if *verbose {
 				cmd.Env = append(cmd.Env, "VVERBOSE=1")
 			}
